@@ -42,6 +42,9 @@ def run(c):
         c.guard("base_" + g, bstats.get(g, 0))
     rb = gsp_util.validate_many(c, "gsp", "BaseLeecherTrace", btrace, parallel=W, lines_per_piece=150000)
     c.log("base leecher: %d scenarios, %d lines validated, %d rejections" % (rb["scenarios"], rb["validated_lines"], len(rb["rejections"])))
+    for rej in rb["rejections"]:
+        rej["script"] = " ".join(x["op"] + (":" + x["p"] if x["p"] else "") for x in rej["scenario"][0]["script"])
+        c.log("rejected base-leecher script (pick %s): %s" % (rej["scenario"][0]["pick"], rej["script"]))
     gsp_util.report_rejections(c, rb, "base-leecher-trace", "baseleecher", "BaseLeecher")
 
     # ---- peer leecher
